@@ -805,6 +805,16 @@ func (c *Client) handleRollForward(msgGeneric protocol.Message) error {
 		switch blockEra {
 		case ledger.BlockHeaderTypeByron:
 			blockType = msg.WrappedHeader.ByronType()
+			// The sub-type comes off the wire. Only the two Byron block
+			// types belong to this era; anything else would hand a header
+			// tagged as Byron to another era's decoder.
+			if blockType != ledger.BlockTypeByronEbb &&
+				blockType != ledger.BlockTypeByronMain {
+				return fmt.Errorf(
+					"unknown Byron block sub-type: %d",
+					blockType,
+				)
+			}
 			blockHeaderBytes = msg.WrappedHeader.HeaderCbor()
 		default:
 			// Map block header type to block type
